@@ -323,6 +323,13 @@ Section Stable.
     unfold printValue. destruct depth; destruct value; stab2; try apply stable_print_kind.
   Qed.
 
+  (* what printValue runs inside the SafeValue / registered-type bracket of an interfaceable value *)
+  Lemma stable_value_body value verb depth ci :
+    stable (h <- rec (CHandleMethods verb) ;;
+            if rbool h then ret tt
+            else (modify (fun s => set_val (set_arg s None) (Some (value, ci))) ;;; print_kind 8 rec env value verb depth ci)).
+  Proof. stab2; try apply stable_print_kind. Qed.
+
   Lemma stable_printArg_inner arg verb : stable (printArg_inner rec env arg verb).
   Proof.
     unfold printArg_inner. stab2.
